@@ -24,6 +24,7 @@ type UnitResult struct {
 	Notes      []string
 	Abstracted []string
 	decls      []string
+	Locals     [][2]string // local variables (receiver, parameters, results, body) in source order: name, type
 	File       string
 	Line       int
 }
@@ -139,6 +140,20 @@ func (w *World) verifyFunc(p pkgT, cs *ContractSet, ct *Contract) (res *UnitResu
 			}
 		}
 	}()
+	// local variables in declaration order; a contract written against older names is re-bound when locals were renamed
+	{
+		var scopeNode ast.Node = body
+		if fd != nil {
+			scopeNode = fd
+		} else if lit != nil {
+			scopeNode = lit
+		}
+		res.Locals = localsOf(p.TypesInfo, scopeNode)
+		x.aliases = renameAliases(w.ledgerLocals[res.Key], res.Locals)
+		for old, nw := range x.aliases {
+			u.c.note(fmt.Sprintf("local variable %s of %s is called %s now: the contract is read with the new name", old, res.Key, nw))
+		}
+	}
 	u.ensureAxioms()
 	if len(ct.NoWrite) > 0 {
 		x.memFrame(ftype, fd, body)
@@ -398,7 +413,13 @@ func (w *World) verifyFunc(p pkgT, cs *ContractSet, ct *Contract) (res *UnitResu
 		for _, v := range objs {
 			if t, ok := entry.vars[v]; ok && isRefLike(t) {
 				if ft, ok := final.vars[v]; ok {
-					x.assert(final, tEq(ft, t), "frame", v.Name(), body, v.Name()+" is not modified")
+					lbl := v.Name()
+					for oldName, nw := range x.aliases {
+						if nw == lbl {
+							lbl = oldName // obligation names keep the name recorded in the ledger
+						}
+					}
+					x.assert(final, tEq(ft, t), "frame", lbl, body, v.Name()+" is not modified")
 				}
 			}
 		}
@@ -786,4 +807,61 @@ func (w *World) verifyFieldWriters(p pkgT, d ImmutableDecl, res *UnitResult) *Un
 	res.decls = []string{}
 	res.Obls = []*Obligation{{Name: res.Key + "#frame:fieldwriters", Kind: "frame", Func: res.Key, PC: tTrue, Goal: goal, Text: txt, syntactic: true}}
 	return res
+}
+
+// renameAliases maps names the ledger knows but the function no longer declares to names the function declares but the
+// ledger does not know, pairing them in declaration order; only if the two lists have the same length and the paired
+// variables have the same type (a pure rename). Anything else yields no alias (the contract then fails to bind, as before).
+func renameAliases(ledger, cur [][2]string) map[string]string {
+	if len(ledger) == 0 {
+		return nil
+	}
+	curNames, ledNames := map[string]bool{}, map[string]bool{}
+	for _, l := range cur {
+		curNames[l[0]] = true
+	}
+	for _, l := range ledger {
+		ledNames[l[0]] = true
+	}
+	var missing, fresh [][2]string
+	seenM, seenF := map[string]bool{}, map[string]bool{}
+	for _, l := range ledger {
+		if !curNames[l[0]] && !seenM[l[0]] {
+			seenM[l[0]] = true
+			missing = append(missing, l)
+		}
+	}
+	for _, l := range cur {
+		if !ledNames[l[0]] && !seenF[l[0]] {
+			seenF[l[0]] = true
+			fresh = append(fresh, l)
+		}
+	}
+	if len(missing) == 0 || len(missing) != len(fresh) {
+		return nil
+	}
+	out := map[string]string{}
+	for i := range missing {
+		if missing[i][1] != fresh[i][1] {
+			return nil
+		}
+		out[missing[i][0]] = fresh[i][0]
+	}
+	return out
+}
+
+// localsOf lists the variables declared in a function (receiver, parameters, results, body; literals included) in source order.
+func localsOf(info *types.Info, scope ast.Node) [][2]string {
+	var out [][2]string
+	seen := map[types.Object]bool{}
+	ast.Inspect(scope, func(n ast.Node) bool {
+		if id, ok := n.(*ast.Ident); ok {
+			if v, ok := info.Defs[id].(*types.Var); ok && !v.IsField() && id.Name != "_" && !seen[v] {
+				seen[v] = true
+				out = append(out, [2]string{id.Name, types.TypeString(v.Type(), func(*types.Package) string { return "" })})
+			}
+		}
+		return true
+	})
+	return out
 }
